@@ -18,6 +18,7 @@ package kernel
 //@   -- CacheRound.Copy / FinalRound.Copy: new objects, a new RoundLink and a new snapshot slice (append to an empty literal)
 //@   ensures result0 != nil && fresh(result0) && result1 != nil && fresh(result1)
 //@   ensures result0.References != nil && fresh(result0.References) && fresh(result0.Snapshots)
+//@   ensures chain.State != nil && chain.State.CacheRound != nil && chain.State.CacheRound.References != nil ==> result0.References.External == chain.State.CacheRound.References.External
 //@   ensures forall i int :: 0 <= i && i < len(result0.Snapshots) ==> result0.Snapshots[i] != nil
 //@ assume func (node *Node) CheckBroadcastedToPeers
 //@   modifies nothing
@@ -42,6 +43,12 @@ package kernel
 //@   trustpre quiet: Gap asFinal determineBestRound updateEmptyHeadRoundAndPersist startNewRoundAndPersist -- graph + store + membership representation (NodeRep, AllBooted, MirrorOK ...): C20/C10; not needed here, not added to the context
 //@   requires CosiChainOK(chain) && AggsShape(chain) && !isnil(chain.persistStore)
 //@   requires m != nil && m.Snapshot != nil && m.data != nil
+//@   requires [head-ref] chain.State != nil ==> chain.State.CacheRound != nil && chain.State.CacheRound.References != nil &&
+//@       storage.SHasRound(storage.StoreVer(chain.persistStore), chain.State.CacheRound.References.External)
+//@       -- store invariant (C20: startNewRoundAndPersist [known]/[durable-head], updateEmptyHeadRoundAndPersist [known]): the external round the
+//@       -- head round refers to is a stored round; ReadRound returns (nil, nil) for an absent key and the code dereferences the result
+//@   ignorepost Gap:roundok asFinal:closed determineBestRound updateEmptyHeadRoundAndPersist startNewRoundAndPersist:shape,next
+//@       -- their postconditions (round order / permutation, durable graph state) are not needed here; only the shape of startNewRoundAndPersist's results
 //@   maypanic
 //@   modifies chain.CosiAggregators, chain.CosiVerifiers, m.Snapshot.RoundNumber, m.Snapshot.References, ghost bytes_cachequeue, ghost store_errors, ghost kernel_graph_state, ghost storever, chain.State.RoundLinks[..], chain.node.chains.m[..], chain.State.CacheRound, chain.State.FinalRound, chain.State.RoundHistory, chain.State.RoundHistory[..cap], chain.node.GraphTimestamp, chain.FinalIndex, chain.FinalCount
 //@   ensures [deferred-requeues] !result0 && err == nil && StoreErrors(chain.node.persistStore) == old(StoreErrors(chain.node.persistStore)) ==>
